@@ -1,3 +1,81 @@
-From DI Require Import PyStr Deps.
-Theorem C15_placeholder : True. Proof. exact I. Qed.
-Print Assumptions C15_placeholder.
+(* C15 - Relationship matching is three-valued, compositional and follows dpkg
+   order.  None = the name is not mentioned.  Architecture restrictions raise
+   NotImplementedError in the code and are outside the property. *)
+From Coq Require Import String.
+From Coq Require Import NArith ZArith List Bool.
+From DI Require Import Result PyStr Version Dpkg Deps Matching VersionOrder DpkgVersion DepsFacts.
+Import ListNotations.
+
+Theorem C15_simple : forall n name c,
+  rel_matches (Rel n []) name c = Ok (if str_eqb n name then Some true else None).
+Proof. exact matches_simple. Qed.
+Print Assumptions C15_simple.
+
+Theorem C15_versioned_other_name : forall n o v archs name c,
+  str_eqb n name = false -> rel_matches (VRel n o v archs) name c = Ok None.
+Proof. exact matches_versioned_other. Qed.
+Print Assumptions C15_versioned_other_name.
+
+Theorem C15_versioned_no_candidate : forall n o v archs name c,
+  str_eqb n name = true -> cand_truthy c = false ->
+  rel_matches (VRel n o v archs) name c = Ok (Some false).
+Proof. exact matches_versioned_no_candidate. Qed.
+Print Assumptions C15_versioned_no_candidate.
+
+(* the candidate stands on the left of the comparison, the required version on the
+   right; an operator outside the table raises ValueError *)
+Theorem C15_versioned : forall n o v name c vc vr r,
+  str_eqb n name = true -> cand_truthy c = true ->
+  coerce_cand c = Ok vc -> from_string v = Ok vr ->
+  compare_version_objects vc vr = Ok r ->
+  rel_matches (VRel n o v []) name c =
+  match parse_op o with
+  | Some op => Ok (Some (apply_op op r))
+  | None => Raise ValueError
+  end.
+Proof. exact matches_versioned. Qed.
+Print Assumptions C15_versioned.
+
+(* ... and that comparison is dpkg's (C01) *)
+Theorem C15_comparison_is_dpkg : forall a b va vb,
+  from_string a = Ok va -> from_string b = Ok vb ->
+  compare_version_objects va vb = Ok (Z.sgn (dpkg_compare_strings (strip a) (strip b))).
+Proof.
+  intros a b va vb Ha Hb. rewrite <- (compare_versions_dpkg a b va vb Ha Hb).
+  unfold compare_versions. now rewrite Ha, Hb.
+Qed.
+Print Assumptions C15_comparison_is_dpkg.
+
+(* rows: << <= < = >= > >> ; columns: candidate earlier, order-equal, later *)
+Theorem C15_operator_table :
+  map (fun o => option_map (fun op => map (apply_op op) [-1; 0; 1]%Z) (parse_op (lit o)))
+      ["<<"; "<="; "<"; "="; ">="; ">"; ">>"]%string =
+  [Some [true; false; false]; Some [true; true; false]; Some [true; true; false];
+   Some [false; true; false]; Some [false; true; true]; Some [false; true; true];
+   Some [false; false; true]].
+Proof. exact operator_table. Qed.
+Print Assumptions C15_operator_table.
+
+Theorem C15_or : forall name c rs os,
+  Forall2 (fun r o => rel_matches r name c = Ok o) rs os ->
+  rel_matches (OrRel rs) name c = Ok (or_tv os).
+Proof. exact matches_or. Qed.
+Print Assumptions C15_or.
+
+Theorem C15_and : forall name c rs os,
+  Forall2 (fun r o => rel_matches r name c = Ok o) rs os ->
+  rel_matches (AndRel rs) name c = Ok (and_tv os).
+Proof. exact matches_and. Qed.
+Print Assumptions C15_and.
+
+Theorem C15_match_relationships : forall name c sets os,
+  Forall2 (fun r o => rel_matches r name c = Ok o) sets os ->
+  match_relationships name c sets = Ok (sets_tv os).
+Proof. exact match_relationships_tv. Qed.
+Print Assumptions C15_match_relationships.
+
+Example C15_nonvacuous :
+  rel_matches (AndRel [OrRel [VRel (lit "a") (lit ">=") (lit "1.0") []; Rel (lit "b") []];
+                       VRel (lit "a") (lit "<<") (lit "2") []])
+              (lit "a") (CandStr (lit "1.00-0")) = Ok (Some true).
+Proof. vm_compute. reflexivity. Qed.
